@@ -82,7 +82,7 @@ package key_certificate
 // ---- parsing
 
 //@ contract NewKeyCertificate(bytes []byte) (key_certificate *KeyCertificate, remainder []byte, err error)
-//@   ensures @C08 fresh(key_certificate.SpkType) && fresh(key_certificate.CpkType) && fresh(certificate.CertPayload(&key_certificate.Certificate)) && fresh(certificate.CertKind(&key_certificate.Certificate)) && fresh(certificate.CertLenBytes(&key_certificate.Certificate)) && disjoint(certificate.CertKind(&key_certificate.Certificate), certificate.CertLenBytes(&key_certificate.Certificate), certificate.CertPayload(&key_certificate.Certificate))
+//@   ensures @C08 @C18 fresh(key_certificate.SpkType) && fresh(key_certificate.CpkType) && fresh(certificate.CertPayload(&key_certificate.Certificate)) && fresh(certificate.CertKind(&key_certificate.Certificate)) && fresh(certificate.CertLenBytes(&key_certificate.Certificate)) && disjoint(certificate.CertKind(&key_certificate.Certificate), certificate.CertLenBytes(&key_certificate.Certificate), certificate.CertPayload(&key_certificate.Certificate))
 //@   ensures @C01 @C03 (err == nil) == (len(bytes) >= 3 && u16(bytes[1:3]) <= len(bytes)-3 && bytes[0] == 5 && u16(bytes[1:3]) >= 4)
 //@   ensures @C03 err == nil ==> suffix(remainder, bytes, 3+u16(bytes[1:3]))
 //@   ensures @C01 @C18 err == nil ==> KeyCertInv(key_certificate) && seqeq(certificate.CertKind(&key_certificate.Certificate), bytes[0:1]) && seqeq(certificate.CertLenBytes(&key_certificate.Certificate), bytes[1:3]) && seqeq(certificate.CertPayload(&key_certificate.Certificate), bytes[3:])
